@@ -5,7 +5,7 @@ Local Open Scope N_scope.
 
 Inductive xop := XAdd (n : nat) | XAddW (n w : nat) | XAddR (n r : nat) | XRemove (n : nat).
 
-Record case := mkcase {
+Record hcase := mkcase {
   c_replicas : nat;                 (* argument of NewCustomConsistentHash *)
   c_custom : bool;                  (* false: NewConsistentHash() *)
   c_ops : list xop;
@@ -18,10 +18,10 @@ Record case := mkcase {
 Definition min_replicas : nat := Z.to_nat C13_Gen.minReplicas.
 Definition top_weight : nat := Z.to_nat C13_Gen.TopWeight.
 
-Definition cap_of (c : case) : nat :=
+Definition cap_of (c : hcase) : nat :=
   if c_custom c then Nat.max (c_replicas c) min_replicas else min_replicas.
 
-Definition vh_of (c : case) (n i : nat) : N :=
+Definition vh_of (c : hcase) (n i : nat) : N :=
   match alookup Nat.eqb n (c_vh c) with Some l => nth i l 0 | None => 0 end.
 
 Definition to_op (cap : nat) (o : xop) : op :=
@@ -57,7 +57,7 @@ Fixpoint model_rows (vh : nat -> nat -> N) (probes : list (N * N)) (s : st) (ops
   | _, _ => false
   end.
 
-Definition model_ok (c : case) : bool :=
+Definition ring_model_ok (c : hcase) : bool :=
   let cap := cap_of c in
   model_rows (vh_of c) (c_probes c) (init cap) (map (to_op cap) (c_ops c)) (c_results c).
 
@@ -127,7 +127,7 @@ Definition balance_ok (tol : nat) (m : members) (row : list (option nat)) : bool
     let slack := keys * N.of_nat (snd nr) * N.of_nat tol in
     (got <=? want + slack) && (want <=? got + slack)) m.
 
-Definition spec_ok (c : case) : bool :=
+Definition ring_spec_ok (c : hcase) : bool :=
   let cap := cap_of c in
   let ops := map (to_op cap) (c_ops c) in
   spec_rows (vh_of c) cap (c_probes c) [] (map (fun _ => None) (c_probes c)) ops (c_results c) &&
@@ -139,5 +139,40 @@ Definition spec_ok (c : case) : bool :=
 (* the hash table of a case must satisfy the no-collision hypothesis of the theorems; measured per case *)
 Fixpoint nodup_N (l : list N) : bool :=
   match l with [] => true | a :: r => negb (existsb (N.eqb a) r) && nodup_N r end.
-Definition hyp_ok (c : case) : bool :=
+Definition hyp_ok (c : hcase) : bool :=
   nodup_N (flat_map (fun nl => firstn (cap_of c) (snd nl)) (c_vh c)).
+
+
+(* --- users of the ring and the hash function itself ---
+   CX: a cache cluster / KV store built from configured (address, weight) pairs must dispatch every key to the node a
+       consistent hash built directly from the same pairs returns (got = ref, element-wise; None = absent);
+       both sides are observations of the real code, the reference being the ring that the CH cases tie to the model.
+   CF: Hash(data) must be the 64-bit murmur3 of the WHOLE input (got = ref). *)
+Inductive case :=
+| CH (h : hcase)
+| CX (weights : list nat) (got ref : list (option nat))
+| CF (got ref : list N).
+
+Definition optnat_eqb := option_eqb Nat.eqb.
+
+Definition dispatch_ok (weights : list nat) (got ref : list (option nat)) : bool :=
+  list_eqb optnat_eqb got ref &&
+  (* total: with some positive weight no key is absent, and only positive-weight nodes receive keys *)
+  forallb (fun g => match g with
+                    | Some i => Nat.ltb 0 (nth i weights 0%nat)
+                    | None => forallb (fun w => Nat.eqb w 0) weights
+                    end) got.
+
+Definition model_ok (c : case) : bool :=
+  match c with
+  | CH h => ring_model_ok h
+  | CX w got ref => dispatch_ok w got ref
+  | CF got ref => list_eqb N.eqb got ref
+  end.
+
+Definition spec_ok (c : case) : bool :=
+  match c with
+  | CH h => ring_spec_ok h
+  | CX w got ref => dispatch_ok w got ref
+  | CF got ref => list_eqb N.eqb got ref
+  end.
